@@ -336,6 +336,32 @@ def check_property(pid, tier, seed):
                 obl_reports.append(rep)
                 continue
             dropped_files = set(d["file"] for d in res.get("harness_dropped") or [])
+            # cross-solver validation (thorough tier, obligations that ask for it): the same obligation at
+            # its quick bound under z3 4.8, z3 5.1 and cvc5; path counts, path ends and violation identities
+            # must agree, otherwise the verdict is inconclusive
+            if tier == "thorough" and ob.get("cross_solver"):
+                qrung = (ob.get("quick", {}).get("ladder") or [{}])[0]
+                runs = []
+                for sv in ("", "z3-new -in", "cvc5 --incremental --produce-models"):
+                    o2 = dict(opts)
+                    if sv:
+                        o2["solver"] = sv
+                    oj2 = os.path.join(tmp, "cross.json")
+                    if os.path.exists(oj2):
+                        os.remove(oj2)
+                    rc2, out2, r2 = run_symx(ob["entry"], qrung, o2, ob.get("quick", {}).get("timeout_s", 300), oj2)
+                    if r2 is None or "paths" not in r2:
+                        runs.append({"solver": sv or "z3", "error": (out2 or "")[-200:]})
+                        continue
+                    runs.append({"solver": sv or "z3", "paths": r2["paths"], "path_ends": r2["path_ends"], "incomplete": r2["incomplete"],
+                                 "violations": sorted(ident(ob["id"], v) for v in r2["violations"]), "solver_s": round(r2["solver_s"], 1)})
+                rep["cross_solver"] = {"bound": qrung, "runs": runs}
+                base = runs[0]
+                agree = all("error" not in r and r["paths"] == base.get("paths") and r["path_ends"] == base.get("path_ends")
+                            and r["violations"] == base.get("violations") for r in runs)
+                rep["cross_solver"]["agree"] = agree
+                if not agree:
+                    inconclusive.append("%s: solvers disagree (%s)" % (ob["id"], ", ".join("%s:%s" % (r["solver"], r.get("paths", "error")) for r in runs)))
             tot["paths"] += res["paths"]
             tot["forks"] += res["forks_solver"]
             tot["enum"] += res["forks_enumerated"]
